@@ -3,12 +3,14 @@
 From TR Require Import Lib.Base Model.RateLimiter Proof.RateLimiter.
 
 (* A waiting caller's sleep deadline (a rational number of ms, fst/snd) never lies beyond its
-   arrival + timeout_duration, in every reachable state ... *)
+   arrival + timeout_duration, in every reachable state ... (second round: for timeout_duration <
+   Duration::MAX; with Duration::MAX = "wait for ever" there is no deadline to keep, and since fix
+   a8700d2 the elapsed-time test saturates instead of overflowing - C15_max_timeout_never_rejects) *)
 Theorem C15_sleeping_within_timeout :
   forall (c : cfg) (evs : list ev),
     wfc c ->
     Forall (fun s => forall i start u, cs s i = Sleeping start u ->
-              0 < snd u /\ fst u <= (start + timeout c) * snd u /\ arrival s i = Some start)
+              0 < snd u /\ (timeout c < dur_max -> fst u <= (start + timeout c) * snd u) /\ arrival s i = Some start)
            (states (step_st c) (init c) evs).
 Proof. exact sleeping_within_timeout. Qed.
 Print Assumptions C15_sleeping_within_timeout.
@@ -88,7 +90,7 @@ Print Assumptions C15_invariant_reachable.
    arrival + timeout is decided by that poll (admitted or rejected) - it never goes back to sleep ... *)
 Theorem C15_decided_by_deadline :
   forall (c : cfg) (s : st) (i : nat) (start : Z) (u : wait),
-    wfc c -> Inv c s -> cs s i = Sleeping start u -> start + timeout c <= now s ->
+    wfc c -> timeout c < dur_max -> Inv c s -> cs s i = Sleeping start u -> start + timeout c <= now s ->
     forall st' u', cs (fst (poll c s i)) i <> Sleeping st' u'.
 Proof. exact decided_by_deadline. Qed.
 Print Assumptions C15_decided_by_deadline.
@@ -129,6 +131,7 @@ Print Assumptions C15_fixed_spare_capacity_history.
 (* sliding counter: spare capacity by its own weighted estimate (after rotation, e ms into the bucket) *)
 Theorem C15_counter_spare_capacity :
   forall (c : cfg) (t : Z) (l : lim),
+    0 < period c ->
     let l1 := rotate c t l in
     let e := Z.min (Z.max 0 (t - bucket_start l1)) (period c) in
     prevc l1 * (period c - e) + curc l1 * period c < limit c * period c ->
@@ -148,10 +151,10 @@ Theorem C15_fixed_later_window :
 Proof. exact fixed_later_window. Qed.
 Print Assumptions C15_fixed_later_window.
 
-(* Reading adopted for the sliding log and the sliding counter (and true of the fixed window too): there a
-   "window" is the interval of one period ending at the instant of the decision; a caller that had to wait
-   (the limiter did not answer Ok(ZERO) at its arrival) is admitted at an instant strictly after its arrival,
-   i.e. by the window ending at a later instant than the one that was full when it arrived. *)
+(* For the sliding log and the sliding counter a "window" is the interval of one period ending at the
+   instant of the decision. This theorem alone is weak (it is a consequence of having waited: every sleep ends
+   strictly after it starts) - the content for the sliding log is C15_log_admitted_in_free_window below, for
+   the fixed window C15_fixed_later_window above; for the counter's buckets the clause is refuted below. *)
 Theorem C15_waiter_admitted_later_instant :
   forall (c : cfg) (evs : list ev),
     wfc c ->
@@ -225,3 +228,41 @@ Theorem C15_rejected_admits_nothing :
     wfc c -> r (snd (poll c s i)) = 3 -> adms (lm (fst (poll c s i))) = adms (lm s).
 Proof. exact rejected_admits_nothing. Qed.
 Print Assumptions C15_rejected_admits_nothing.
+
+(* ---- second improvement round ---- *)
+
+(* No spurious rejection: a poll answers RateLimited only for a caller that asked the limiter in this very
+   poll (new, or its sleep over) and did not get a permit. With C15_capacity_step / C15_admitted_when_asked:
+   a caller that finds spare capacity is never rejected. *)
+Theorem C15_rejected_only_without_capacity :
+  forall (c : cfg) (s : st) (i : nat),
+    r (snd (poll c s i)) = 3 ->
+    snd (try_acquire c (now s) (lm s)) <> AOk None /\
+    exists start, (cs s i = Created /\ start = now s) \/ (exists u, cs s i = Sleeping start u /\ due u (now s) = true).
+Proof. exact rejected_only_without_capacity. Qed.
+Print Assumptions C15_rejected_only_without_capacity.
+
+(* Sliding log, "a permit of a later window" with content: in every reachable state, whenever a poll starts an
+   inner call at instant t, the admission limit_for_period places back (if there is one) lies at least a period
+   before t, i.e. the window (t - P, t] held fewer than limit admissions. A waiter found its window full on
+   arrival, so it is admitted by a window that ends later and is not full. *)
+Theorem C15_log_admitted_in_free_window :
+  forall (c : cfg) (evs : list ev),
+    wfc c -> wt c = SlidingLog ->
+    Forall (fun s => forall i y, started (snd (poll c s i)) = true ->
+              nth_error (adms (lm s)) (Z.to_nat (limit c) - 1) = Some y -> y + period c <= now s)
+           (states (step_st c) (init c) evs).
+Proof. exact log_admitted_in_free_window. Qed.
+Print Assumptions C15_log_admitted_in_free_window.
+
+(* fix a8700d2 (start.elapsed().saturating_add(wait) > timeout): with timeout_duration = Duration::MAX a caller
+   that gets no permit is never rejected by the elapsed-time test - whatever wait the limiter names (Duration::MAX
+   included) and however long ago it arrived: [start] is arbitrary, so this also covers an elapsed time inside
+   the poll, which the driver's virtual clock cannot produce (there the sum used to overflow and panic). *)
+Theorem C15_max_timeout_never_rejects :
+  forall (c : cfg) (s : st) (i : nat) (start : Z) (w : wait),
+    snd (try_acquire c (now s) (lm s)) = AOk (Some w) -> 0 < snd w -> dur_max <= timeout c ->
+    cs (fst (acquire_round c s i start)) i = Sleeping start (fst w + now s * snd w, snd w) /\
+    r (snd (acquire_round c s i start)) = 0.
+Proof. exact max_timeout_never_rejects. Qed.
+Print Assumptions C15_max_timeout_never_rejects.
